@@ -971,7 +971,10 @@ def _reset_module_state():
     import more_executors._impl.event as ev
     h = ev.GLOBAL_HANDLER
     h.lock = RLock()
-    h.events = []
+    try:
+        h.events = type(h.events)()      # (whatever container the registry uses: start every execution with an empty one)
+    except Exception:
+        h.events = []
     h.shutdown = False
     h.atexit_registered = True  # never register with the real atexit from inside an execution
     import more_executors._impl.futures.base as fbase
